@@ -221,13 +221,20 @@ class SpawnProcess(multiprocessing.context.SpawnProcess):
                 error = OSError(exitcode, msg)
                 error.__cause__ = exc
 
-        self._logger_queue_.put(None)
         self._result_and_error_.close()
         self._result_and_error_ = None
         if error is not None:
             self._future_.set_exception(error)
         else:
             self._future_.set_result(result)
+
+        # Stop the log reader only after the child process has exited, that is,
+        # after it has flushed all its log records into the queue. Otherwise the end marker
+        # could overtake records that are still in flight (they would be lost), and a child
+        # holding more unflushed log data than the pipe can take could never exit.
+        multiprocessing.connection.wait([self.sentinel])
+        self._logger_queue_.put(None)
+        self._logger_thread_.join()
 
     @staticmethod
     def _finalize(logger_thread, q):
